@@ -51,6 +51,27 @@ func c16Pieces(c *hx.Ctx, cases []*c16Case, results []*c16Result) {
 			c.Count("pieces:not-per-tile-path")
 			continue
 		}
+		// HTJ2K: the partition of a tile's packets into NumLevels+1 tile-parts by resolution (first loop of
+		// writeHTJ2KTileParts) against the model `htPartition`: packets in, the real tile-part bodies out
+		if p.HTJ2KMode && len(res.J2k.Parts) == len(tiles)*(p.NumLevels+1) {
+			for t, pk := range tiles {
+				var sb strings.Builder
+				for _, q := range pk {
+					hdr, body := []byte{}, []byte{}
+					if len(q.Pieces) > 0 {
+						hdr = q.Pieces[0]
+						body = bytes.Join(q.Pieces[1:], nil)
+					}
+					fmt.Fprintf(&sb, " %d:%s:%s", q.Res, hx.Hex(hdr), hx.Hex(body))
+				}
+				var real []string
+				for r := 0; r <= p.NumLevels; r++ {
+					real = append(real, hx.Hex(res.J2k.Parts[t*(p.NumLevels+1)+r].Body))
+				}
+				c.Case(fmt.Sprintf("c16-ht-partition %d%s", p.NumLevels, sb.String()), "ok "+strings.Join(real, " "))
+				c.Count("pieces:ht-partition")
+			}
+		}
 		// expected tile-part bodies: classic = one per tile; HTJ2K = one per (tile, resolution)
 		var bodies [][][]byte // per tile-part: its pieces
 		for _, pk := range tiles {
